@@ -458,10 +458,52 @@ class Body:
             return "const"
         return "?"
 
+    def eval_ints(self, o, depth=0):
+        """finite set of integer values an operand may hold (constants joined over branches, + - *), or None"""
+        if depth > 8:
+            return None
+        if o["c"] == "const":
+            return {o["int"]} if "int" in o else None
+        if o["c"] not in ("copy", "move"):
+            return None
+        p = o["p"]
+        if p["pr"]:
+            if len(p["pr"]) == 1 and p["pr"][0][0] == "field" and p["pr"][0][2] == "0":
+                return self.eval_ints({"c": "copy", "p": {"l": p["l"], "pr": [], "s": "", "ty": ""}}, depth + 1)
+            return None
+        out = set()
+        ds = self.whole_defs(p["l"])
+        if not ds:
+            return None
+        for d in ds:
+            if d[0] != "assign":
+                return None
+            rv = d[3]["r"]
+            if rv["k"] in ("use", "cast"):
+                v = self.eval_ints(rv["o"], depth + 1)
+            elif rv["k"] == "binop" and rv["op"].replace("WithOverflow", "").replace("Unchecked", "") in ("Add", "Sub", "Mul"):
+                a, b = self.eval_ints(rv["a"], depth + 1), self.eval_ints(rv["b"], depth + 1)
+                if a is None or b is None:
+                    return None
+                op = rv["op"].replace("WithOverflow", "").replace("Unchecked", "")
+                v = set()
+                for x in a:
+                    for y in b:
+                        v.add(x + y if op == "Add" else x - y if op == "Sub" else x * y)
+            else:
+                return None
+            if v is None or len(v) > 8:
+                return None
+            out |= v
+        return out or None
+
     def const_int(self, o, depth=0):
-        """integer value of an operand if it is (a copy of) a constant"""
+        """integer value of an operand if it is (a copy of) a constant or constant arithmetic"""
         if o["c"] == "const":
             return o.get("int")
+        vs = self.eval_ints(o)
+        if vs is not None and len(vs) == 1:
+            return next(iter(vs))
         if o["c"] in ("copy", "move") and not o["p"]["pr"] and depth < 6:
             ds = self.whole_defs(o["p"]["l"])
             if len(ds) == 1 and ds[0][0] == "assign":
